@@ -112,6 +112,29 @@ def _main_shape(fn):
     return out
 
 
+def _read_in_loop(fn):
+    """Is every `<file>.read(...)` of hash_file_content inside a while/for loop (so that the whole
+    file is consumed), and is there at least one?"""
+    parents = {}
+    for n in ast.walk(fn):
+        for c in ast.iter_child_nodes(n):
+            parents[c] = n
+    reads = [n for n in ast.walk(fn) if isinstance(n, ast.Call) and isinstance(n.func, ast.Attribute)
+             and n.func.attr == "read"]
+    if not reads:
+        return False
+    for r in reads:
+        cur, ok = r, False
+        while cur in parents:
+            cur = parents[cur]
+            if isinstance(cur, (ast.While, ast.For)):
+                ok = True
+                break
+        if not ok:
+            return False
+    return True
+
+
 def tables():
     import attrs
 
@@ -119,6 +142,10 @@ def tables():
     from rattr.models.results import util as ru
     from rattr.models.results.cacheable import CacheableImportInfo, CacheableResults, HashableArguments
 
+    from rattr.models.util import hash as rh
+
+    hfc = _fn_ast(rh.hash_file_content)
+    blocksize = inspect.signature(rh.hash_file_content).parameters["blocksize"].default
     gate = _fn_ast(ru.target_cache_file_is_up_to_date)
     fields = list(HashableArguments._fields)
     return [
@@ -129,5 +156,7 @@ def tables():
         f"def gateComparisons : List String := {llist(_comparisons(gate))}",
         f"def gateCaughtExceptions : List String := {llist(_caught(gate))}",
         f"def hashedArgumentSources : List String := {llist(_hashed_sources(_fn_ast(ru.make_arguments_hash), fields))}",
+        f"def hashReadInLoop : Bool := {'true' if _read_in_loop(hfc) else 'false'}",
+        f"def hashBlockSize : Nat := {int(blocksize)}",
         f"def mainShape : List String := {llist(_main_shape(_fn_ast(rmain.main)))}",
     ]
